@@ -204,6 +204,14 @@ func main() {
 		}
 		return v
 	}
+	drv.E2Replayers["pp"] = func(raw json.RawMessage) string {
+		var c ppcell
+		if err := json.Unmarshal(raw, &c); err != nil {
+			return "bad case: " + err.Error()
+		}
+		v, _ := runPP(c)
+		return v
+	}
 	c := drv.Setup("C01", "e2real", "model_checking", nil)
 	if c == nil {
 		return
@@ -267,6 +275,28 @@ func main() {
 		c.Count(key)
 		if r.v != "" {
 			c.ViolateConfirmed("cell", "cell:"+key+":"+r.v, fmt.Sprintf("%+v: %s", r.c, r.v), r.c, 3)
+		}
+	}
+	c.Rule("proxy-protocol header of a directly exposed tcp proxy: version {v1, v2} x user address family {IPv4, IPv6 loopback} x tcpMux x encryption, two users each: the header the backend reads names the user's real address and port, the address the user connected to, the configured version and the right family; the bytes after it are the user's")
+	for _, ver := range []string{"v1", "v2"} {
+		for _, fam := range []string{"ipv4", "ipv6"} {
+			for _, mux := range []bool{true, false} {
+				for _, enc := range []bool{false, true} {
+					pc := ppcell{ver, fam, mux, enc}
+					key := fmt.Sprintf("pp:%+v", pc)
+					v, in := runPP(pc)
+					if in != "" {
+						inconclusive++
+						c.Count("")
+						c.Note("inconclusive:"+key, in)
+						continue
+					}
+					c.Count(key)
+					if v != "" {
+						c.ViolateConfirmed("pp", key, v, pc, 3)
+					}
+				}
+			}
 		}
 	}
 	c.States(int64(len(cells)), int64(len(cells)*len(payloadOrder)))
